@@ -56,32 +56,158 @@ def record_shape(iface):
 
 
 def shape_of_value(v):
+    """Shape of a list element.  Besides scalars and tuples of scalars:
+       ('opt', s)              an optional value (SOpt / None) of shape s
+       ('ref', iface, uid, n)  an opaque object that is a function of n integer index terms (an element of a
+                               symbolic sequence of interface objects, a structured result of a pure method):
+                               stored as its index, rebuilt from it
+       ('codec', iface)        an opaque object whose interface says how it is determined by scalars
+                               (`mlist_codec = (kinds, encode(interp, obj), decode(interp, scalars))`)
+       ('inst', cls, fields)   an instance of a plain record class: its attributes, each of a shape"""
+    from .values import Opaque
     if isinstance(v, tuple):
         return ('tuple', tuple(shape_of_value(x) for x in v))
-    if isinstance(v, Opaque):
-        return record_shape(v._pv_iface)
     k = _kind(v)
-    if k is None:
-        raise Unsupported('element of a symbolic mutable list must be int/bool/str or a tuple of these: %r' % (v,))
-    return (k,)
+    if k is not None:
+        return (k,)
+    if isinstance(v, SOpt):
+        return ('opt', shape_of_value(v.val))
+    if isinstance(v, Opaque):
+        if v._pv_index:
+            return ('ref', v._pv_iface, v._pv_uid, len(v._pv_index))
+        if getattr(v._pv_iface, 'mlist_codec', None) is not None:
+            return ('codec', v._pv_iface)
+        # an object of an interface all of whose attributes are scalars: stored by value
+        return record_shape(v._pv_iface)
+    d = getattr(v, '__dict__', None)
+    if isinstance(d, dict) and not isinstance(v, (Sym, type)) and v is not None:
+        return ('inst', type(v), tuple((k2, shape_of_value(x)) for k2, x in d.items()))
+    raise Unsupported('element of a symbolic mutable list must be int/bool/str, a tuple, an indexed opaque object '
+                      'or a record of these: %r' % (v,))
+
+
+
+_DEFAULT = {'int': 0, 'bool': False, 'str': ''}
 
 
 def _paths(shape, path=()):
-    if shape[0] == 'tuple':
+    k = shape[0]
+    if k == 'tuple':
         for i, s in enumerate(shape[1]):
             for p in _paths(s, path + (i,)):
                 yield p
-    elif shape[0] == 'rec':
+    elif k == 'opt':
+        yield path + ('?',), 'bool'
+        for p in _paths(shape[1], path + ('!',)):
+            yield p
+    elif k == 'ref':
+        for j in range(shape[3]):
+            yield path + (('#', j),), 'int'
+    elif k == 'codec':
+        for j, kind in enumerate(shape[1].mlist_codec[0]):
+            yield path + (('$', j),), kind
+    elif k == 'inst':
+        for name, s in shape[2]:
+            for p in _paths(s, path + (name,)):
+                yield p
+    elif k == 'rec':
         for f in shape[2]:
             yield path + (f[0],), f[1]
     else:
-        yield path, shape[0]
+        yield path, k
 
 
-def _leaf(interp, v, path):
-    for i in path:
-        v = v[i] if isinstance(i, int) else interp.getattr(v, i)
-    return v
+def _encode(interp, shape, v, path=(), out=None, absent=False):
+    """{leaf path: scalar} of value v of the given shape (absent: the inside of a None -- default scalars)"""
+    from .values import Opaque
+    if out is None:
+        out = {}
+    k = shape[0]
+    if isinstance(v, SChoice):
+        v = interp.resolve(v)
+    if k == 'tuple':
+        for i, s in enumerate(shape[1]):
+            _encode(interp, s, None if absent else v[i], path + (i,), out, absent)
+    elif k == 'opt':
+        if absent or v is None:
+            out[path + ('?',)] = True
+            _encode(interp, shape[1], None, path + ('!',), out, True)
+        elif isinstance(v, SOpt):
+            out[path + ('?',)] = wrap(v.is_none)
+            _encode(interp, shape[1], v.val, path + ('!',), out, False)
+        else:
+            out[path + ('?',)] = False
+            _encode(interp, shape[1], v, path + ('!',), out, False)
+    elif k == 'ref':
+        if not absent and not (isinstance(v, Opaque) and v._pv_uid == shape[2] and len(v._pv_index) == shape[3]):
+            raise Unsupported('symbolic list of %s objects cannot hold %r' % (shape[2], v))
+        for j in range(shape[3]):
+            out[path + (('#', j),)] = 0 if absent else wrap(v._pv_index[j])
+    elif k == 'codec':
+        kinds, enc, _dec = shape[1].mlist_codec
+        vals = [_DEFAULT[kd] for kd in kinds] if absent else enc(interp, v)
+        for j, x in enumerate(vals):
+            out[path + (('$', j),)] = x
+    elif k == 'rec':
+        for (name, kind, lo, hi) in shape[2]:
+            out[path + (name,)] = _DEFAULT[kind] if absent else interp.getattr(v, name)
+    elif k == 'inst':
+        if not absent and type(v) is not shape[1]:
+            raise Unsupported('symbolic list of %s cannot hold %r' % (shape[1].__name__, v))
+        for name, s in shape[2]:
+            _encode(interp, s, None if absent else v.__dict__[name], path + (name,), out, absent)
+    else:
+        if absent:
+            out[path] = _DEFAULT[k]
+        else:
+            if isinstance(v, SOpt):
+                v = interp.resolve(v)
+            if _kind(v) != k:
+                raise Unsupported('symbolic list element: expected %s, got %r' % (k, v))
+            out[path] = v
+    return out
+
+
+def _decode(interp, shape, get, path=(), at=None, owner=None):
+    """value of the given shape from its leaves: get(path) -> scalar (at / owner: position term and list, for
+    elements that are interface objects stored by value)"""
+    from .api import new_opaque
+    k = shape[0]
+    if k == 'tuple':
+        return tuple(_decode(interp, s, get, path + (i,), at, owner) for i, s in enumerate(shape[1]))
+    if k == 'opt':
+        isn = get(path + ('?',))
+        if isn is True:
+            return None
+        inner = _decode(interp, shape[1], get, path + ('!',), at, owner)
+        if isn is False:
+            return inner
+        return SOpt(to_z3(isn), inner)
+    if k == 'ref':
+        idx = tuple(to_z3(get(path + (('#', j),))) for j in range(shape[3]))
+        return new_opaque(interp, shape[1], shape[2], index=idx)
+    if k == 'codec':
+        kinds, _enc, dec = shape[1].mlist_codec
+        return dec(interp, [get(path + (('$', j),)) for j in range(len(kinds))])
+    if k == 'rec':
+        preset = {}
+        for (name, kind, lo, hi) in shape[2]:
+            x = get(path + (name,))
+            # well-typedness of the stored objects (only objects of the interface are ever stored)
+            if lo is not None and not isinstance(x, (int, bool)):
+                interp.st.assume(to_z3(x) >= lo)
+            if hi is not None and not isinstance(x, (int, bool)):
+                interp.st.assume(to_z3(x) <= hi)
+            preset[name] = x
+        uid = '%s@v%d%s[]' % (owner.uid if owner is not None else 'rec', owner.version if owner is not None else 0,
+                              ''.join('.%s' % (i,) for i in path))
+        return new_opaque(interp, shape[1], uid, index=(at,) if at is not None else (), preset=preset)
+    if k == 'inst':
+        obj = object.__new__(shape[1])
+        for name, s in shape[2]:
+            object.__setattr__(obj, name, _decode(interp, s, get, path + (name,), at, owner))
+        return obj
+    return get(path)
 
 
 class MList(SList):
@@ -101,41 +227,29 @@ class MList(SList):
 
     def _fresh_arrays(self, interp, base):
         for path, kind in _paths(self.shape):
-            name = interp.st.fresh_name('%s%s' % (base, ''.join('.%s' % (i,) for i in path)))
+            name = interp.st.fresh_name('%s%s' % (base, ''.join(
+                '.%s' % (i if not isinstance(i, tuple) else '%s%s' % i) for i in path)))
             self.arrs[path] = z3.Array(name, z3.IntSort(), _SORT[kind]())
 
     def _elem(self, interp, idx):
         if self.shape is None:
             raise Unsupported('element of an empty symbolic list of unknown element shape')
 
-        def load(shape, path):
-            if shape[0] == 'tuple':
-                return tuple(load(s, path + (i,)) for i, s in enumerate(shape[1]))
-            if shape[0] == 'rec':
-                from .api import new_opaque
-                preset = {}
-                for (name, kind, lo, hi) in shape[2]:
-                    t = z3.Select(self.arrs[path + (name,)], at)
-                    # well-typedness of the stored objects (only objects of the interface are ever stored)
-                    if lo is not None:
-                        interp.st.assume(t >= lo)
-                    if hi is not None:
-                        interp.st.assume(t <= hi)
-                    preset[name] = wrap(t)
-                return new_opaque(interp, shape[1], '%s@v%d%s[]' % (self.uid, self.version, ''.join('.%s' % i for i in path)),
-                                  index=(at,), preset=preset)
-            return wrap(z3.Select(self.arrs[path], at))
-
         at = z3.simplify(self.base + idx)
-        return load(self.shape, ())
+        return _decode(interp, self.shape, lambda path: wrap(z3.Select(self.arrs[path], at)), (), at, self)
 
     def _ensure_shape(self, interp, v):
-        sh = shape_of_value(v)
         if self.shape is None:
-            self.shape = sh
+            self.shape = shape_of_value(v)
             self._fresh_arrays(interp, self.uid)
-        elif self.shape != sh:
-            raise Unsupported('symbolic list holds elements of different shapes: %r / %r' % (self.shape, sh))
+            return
+        # declared composite shapes (opt / ref / codec / inst / rec) accept what _encode accepts; plain
+        # scalar / tuple shapes are compared with the shape of the value
+        if self.shape[0] in ('int', 'bool', 'str', 'tuple') and not any(
+                k in repr(self.shape) for k in ("'opt'", "'ref'", "'codec'", "'inst'", "'rec'")):
+            sh = shape_of_value(v)
+            if self.shape != sh:
+                raise Unsupported('symbolic list holds elements of different shapes: %r / %r' % (self.shape, sh))
 
     # ---- mutation -------------------------------------------------------------
     def havoc(self, interp, tag):
@@ -158,8 +272,9 @@ class MList(SList):
         n = self.length
         self.version += 1
         at = z3.simplify(self.base + self.length)
+        _enc = _encode(interp, self.shape, v)
         for path, kind in _paths(self.shape):
-            self.arrs[path] = z3.Store(self.arrs[path], at, to_z3(_leaf(interp, v, path)))
+            self.arrs[path] = z3.Store(self.arrs[path], at, to_z3(_enc[path]))
         self.length = z3.simplify(self.length + 1)
         from . import texts
         texts.on_append(interp, self, n, v)       # the prefix-join measure follows the append
@@ -172,8 +287,9 @@ class MList(SList):
         self.cache = {}
         self.version += 1
         self.base = z3.simplify(self.base - 1)
+        _enc = _encode(interp, self.shape, v)
         for path, kind in _paths(self.shape):
-            self.arrs[path] = z3.Store(self.arrs[path], self.base, to_z3(_leaf(interp, v, path)))
+            self.arrs[path] = z3.Store(self.arrs[path], self.base, to_z3(_enc[path]))
         self.length = z3.simplify(self.length + 1)
         self._rebase(interp)
 
@@ -250,9 +366,10 @@ class MList(SList):
             n = self.length
             end = z3.simplify(self.base + n)
             sample = models.slist_elem(interp, other, k - end)
+            _enc = _encode(interp, self.shape, sample)
             for path, kind in _paths(self.shape):
                 a = self.arrs[path]
-                self.arrs[path] = z3.Lambda([k], z3.If(k < end, z3.Select(a, k), to_z3(_leaf(interp, sample, path))))
+                self.arrs[path] = z3.Lambda([k], z3.If(k < end, z3.Select(a, k), to_z3(_enc[path])))
             self.length = z3.simplify(n + other.length)
             self.cache = {}
             self.version += 1
@@ -274,8 +391,9 @@ class MList(SList):
         self.cache = {}
         self.version += 1
         at = z3.simplify(self.base + t)
+        _enc = _encode(interp, self.shape, v)
         for path, kind in _paths(self.shape):
-            self.arrs[path] = z3.Store(self.arrs[path], at, to_z3(_leaf(interp, v, path)))
+            self.arrs[path] = z3.Store(self.arrs[path], at, to_z3(_enc[path]))
 
     def copy(self, interp):
         c = MList(interp, interp.st.fresh_name(self.uid + '.copy'), None, self.length)
